@@ -33,6 +33,13 @@ class Worker(object):
 
 class ThreadScheduler(object):
     def __init__(self, tape=(), plan=None, max_steps=20000, trace_targets=None, trace_opcodes=False):
+        self.rng = None
+        if isinstance(tape, dict):
+            # {"seed": n, "p": q}: pseudo-random schedule for the WHOLE run: at every yield point switch to a random other worker with probability q
+            import random
+            self.rng = random.Random(tape.get("seed", 0))
+            self.switch_p = tape.get("p", 0.3)
+            tape = ()
         self.tape = list(tape)
         self.tape_i = 0
         self.plan = dict(plan or {})       # step -> worker idx to switch to
@@ -141,6 +148,10 @@ class ThreadScheduler(object):
                 if w.idx == want:
                     return w
             return cands[0]
+        if self.rng is not None:
+            if len(cands) > 1 and self.rng.random() < self.switch_p:
+                return cands[1 + self.rng.randrange(len(cands) - 1)] if cands[0] is self.current else cands[self.rng.randrange(len(cands))]
+            return cands[0]
         if self.tape_i < len(self.tape):
             v = self.tape[self.tape_i] % len(cands)
             self.tape_i += 1
@@ -243,6 +254,12 @@ class AsyncScheduler(object):
     """
 
     def __init__(self, tape=(), plan=None, max_steps=20000):
+        self.rng = None
+        if isinstance(tape, dict):
+            import random
+            self.rng = random.Random(tape.get("seed", 0))
+            self.switch_p = tape.get("p", 0.3)
+            tape = ()
         self.tape = list(tape)
         self.tape_i = 0
         self.plan = dict(plan or {})
@@ -329,6 +346,10 @@ class AsyncScheduler(object):
             for w in cands:
                 if w["idx"] == self.plan[self.step]:
                     return w
+            return cands[0]
+        if self.rng is not None:
+            if len(cands) > 1 and self.rng.random() < self.switch_p:
+                return cands[1 + self.rng.randrange(len(cands) - 1)] if cands[0] is self.current else cands[self.rng.randrange(len(cands))]
             return cands[0]
         if self.tape_i < len(self.tape):
             v = self.tape[self.tape_i] % len(cands)
